@@ -762,10 +762,13 @@ def correspond(ctx):
     n, nshards = sizes(ctx)
     base_seed = ctx.rng.getrandbits(48)
     ctx.rule = ("seeded cases: 1/5 random type-directed recipes of fv/gen_terms.py (depth <= 4, 1-4 Bint inputs of size 1-4), "
-                "2/5 normal-form grid shapes (unary neg/abs/reciprocal/exp/log of a max/min/add/mul/logaddexp reduction of a binary "
+                "3/10 normal-form grid shapes (unary neg/abs/reciprocal/exp/log of a max/min/add/mul/logaddexp reduction of a binary "
                 "add/mul/sub/max/min or a three-term product, bare or wrapped in sub / truediv / add / outer reduce / second "
                 "unary / substitution / renaming; the exact (unary, red_op, bin_op) grid is walked first, in order; "
                 "expressions with inexact ops are compared after rounding to 8 digits against the eager build), "
+                "1/10 simultaneous substitutions with overlapping keys and values into a product/sum of 2-3 tensors over "
+                "equal-size inputs (a key replaced by a Number / index tensor / Slice while another input is renamed onto it, "
+                "swaps, chains, 3-cycles, diagonals, index tensors mentioning other keys; keyword order shuffled), "
                 "1/10 user-defined terms made with funsor.factory.make_funsor (15 classes: every declaration order of Bound / "
                 "Funsor / Has / Fresh parameters, one and two binders, Fresh output names; bare, followed by .reduce(op) over ALL "
                 "inputs, by (t+z).reduce(op), or by substituting an index tensor that depends on a free variable named like the "
